@@ -210,6 +210,12 @@ class URLInfo(object):
         info.username = percent_decode(username, encoding=encoding)
         info.password = percent_decode(password, encoding=encoding)
 
+        # The user info is only percent-encoded lazily by the `url` accessor.
+        # Reject text that cannot be encoded (lone surrogates) here, so that
+        # reading an attribute of a parsed URL never fails.
+        normalize_username(info.username)
+        normalize_password(info.password)
+
         info.host = host
         info.hostname = hostname
         info.port = port or RELATIVE_SCHEME_DEFAULT_PORTS[scheme]
